@@ -24,11 +24,13 @@ def valid_ubx_frames(s):
         k += 1
 
 
-def run_scan(events, interval_ms, idle, pre_events=None):
+def run_scan(events, interval_ms, idle, pre_events=None, bauds=(115200, None)):
     clock = Q.VClock()
-    srv, T, ok = BK.tty_server()
+    srv, T, ok = BK.tty_server(bauds[0])
     T.time = clock
     port = srv.serial_port
+    if bauds[1] is not None:
+        srv.set_baudrate(bauds[1])          # bit-rate detection: construct at one rate, scan at others
     port.clock = clock
     if pre_events is not None:
         # an earlier scan on the same object that ends in the middle of a frame / sentence
@@ -68,7 +70,8 @@ def check(tier, seed):
     res = C.Result('C18', tier, seed)
     res.rule = ('byte streams delivered one byte (or nothing) per read through a stub serial port under a virtual clock: noise, single frames, '
                 'two UBX frames / two NMEA sentences separated by sync-free filler, one of each, corrupted frames, frames completing just before / '
-                'after the deadline, silence gaps; intervals {0, 100, 1500, 5000} ms; compared: verdict and elapsed time with the model; oracle: True '
+                'after the deadline, busy lines (hundreds of bytes of other material around the two frames), port constructed at one bit rate and scanned at another, '
+                'silence gaps; intervals {0, 100, 1500, 5000} ms; compared: verdict and elapsed time with the model; oracle: True '
                 'only if the delivered bytes hold >= 2 valid UBX frames or >= 2 valid sentences, True whenever two complete in time; non-trivial = stream with >= 1 frame')
     with C.WorkDir('C18') as wd:
         C.audit_sources()
@@ -79,7 +82,7 @@ def check(tier, seed):
         ties = 0
         batch = []
         for _ in range(150 if tier == 'quick' else 6000):
-            kind = rng.choice(['noise', 'one_ubx', 'two_ubx', 'two_nmea', 'mixed', 'bad_ubx', 'three', 'late', 'ubx_filler', 'silence', 'near_nmea', 'near_nmea', 'bad_then_two', 'bad_then_two'])
+            kind = rng.choice(['long_two', 'long_two', 'noise', 'one_ubx', 'two_ubx', 'two_nmea', 'mixed', 'bad_ubx', 'three', 'late', 'ubx_filler', 'silence', 'near_nmea', 'near_nmea', 'bad_then_two', 'bad_then_two'])
             fr = lambda: G.frame(*rng.choice(G.CIDS), G.rand_payload(rng, rng.choice([0, 2, 8, 30])))
             nm = lambda good=True: G.nmea(bytes(rng.choice(b'GPRMC,0123456789.AN') for _ in range(rng.randrange(3, 30))), good=good)
             junk = lambda: G.rand_junk(rng)[0]
@@ -87,6 +90,11 @@ def check(tier, seed):
                 s = bytes(rng.getrandbits(8) for _ in range(rng.randrange(0, 120)))
             elif kind == 'one_ubx':
                 s = junk() + fr()
+            elif kind == 'long_two':
+                # a busy line: several hundred bytes of other material (invalid sentences, filler) before / between the two frames
+                fill = lambda: b''.join(G.rand_junk(rng)[0] if rng.random() < 0.5 else nm(False) for _ in range(rng.randrange(8, 30)))
+                two = rng.choice([(fr, fr), (nm, nm)])
+                s = fill() + two[0]() + fill() + two[1]()
             elif kind == 'two_ubx':
                 s = fr() + fr()
             elif kind == 'ubx_filler':
@@ -121,6 +129,9 @@ def check(tier, seed):
             interval = rng.choice([0, 100, 1500, 1500, 5000])
             idle = rng.choice([100, 101, 7])
             dts = [rng.choice([0, 1, 1, 2]) for _ in s]
+            if kind == 'long_two':
+                interval = rng.choice([1500, 5000])
+                dts = [rng.choice([0, 0, 0, 1]) for _ in s]
             if kind == 'late' and s:
                 # put the end of the second frame around the deadline
                 k = rng.randrange(max(1, len(s) - 12), len(s))
@@ -134,11 +145,12 @@ def check(tier, seed):
             if bi % 3 == 0:
                 cutf = G.frame(6, 1, b'\x01\x02\x03')
                 pre = [(bytes([b]), 1) for b in rng.choice([cutf[:-3], cutf + cutf[:5], b'$GPRMC,1*', G.nmea(b'GPGGA,7') + b'$GP', b'\xb5\x62\x0a\x04\xe8\x03'])]
-            r, t, fl = run_scan(events, interval, idle, pre)
+            bauds = (rng.choice([1200, 1200, 9600, 115200, 921600]), rng.choice([None, 9600, 115200, 460800]))
+            r, t, fl = run_scan(events, interval, idle, pre, bauds)
             evtok = ','.join(('N' if d is None else C.hexs(d)) + f'@{dt}' for d, dt in events) or '-'
             cmd = f'scan {interval} {idle} {evtok}'
             impl = f'{r} t={t}'
-            desc = {'kind': kind, 'stream_hex': C.hexs(s), 'interval_ms': interval, 'idle_ms': idle, 'events': evtok[:600]}
+            desc = {'kind': kind, 'stream_hex': C.hexs(s), 'interval_ms': interval, 'idle_ms': idle, 'events': evtok[:600], 'bauds_ctor_then_set': list(bauds)}
             # which bytes were delivered before the scan ended
             delivered, tt = b'', 0
             for d, dt in events:
@@ -152,7 +164,7 @@ def check(tier, seed):
             if r not in (True, None, False):
                 res.violation('scan() returned an unexpected value', {'property': 'C18', 'input': desc, 'result': impl}, 'c18-type')
             total = sum(dt for _, dt in events)
-            if kind in ('two_ubx', 'two_nmea', 'ubx_filler', 'three', 'bad_then_two') and total + 1 < interval and r is not True:
+            if kind in ('two_ubx', 'two_nmea', 'ubx_filler', 'three', 'bad_then_two', 'long_two') and total + 1 < interval and r is not True:
                 res.violation('two well-formed frames of one protocol arrived within the interval but scan() did not return True', {'property': 'C18', 'input': desc, 'result': impl}, 'c18-live|' + kind)
             if r is not True and t > interval + max([idle] + [dt for _, dt in events]):
                 res.violation('scan() returned later than interval + one read timeout', {'property': 'C18', 'input': desc, 'result': impl}, 'c18-time')
